@@ -63,6 +63,7 @@ type concHistory struct {
 	Procs    int        `json:"procs"`
 	Memstore uint64     `json:"memstore"`
 	Async    bool       `json:"async"`
+	Lineage  bool       `json:"lineage"`
 	Opts     dbOpts     `json:"-"`
 	OptsTok  string     `json:"opts_tok"`
 	Ops      []concOp   `json:"ops"`
@@ -101,6 +102,16 @@ func concChildMain(args []string) int {
 	o.maxSize = uint64([]int{1 << 20, 1 << 20, 1500, 400}[r.Intn(4)])
 	rat := [][2]int{{0, 1}, {1, 4}, {1, 1}, {1, 5}}[r.Intn(4)]
 	o.ratioNum, o.ratioDen = rat[0], rat[1]
+	h.Lineage = r.Chance(35)
+	if h.Lineage {
+		// many keys and a tiny memstore: a key is often in neither memstore, so that the ORDER of the tables decides a read
+		h.Keys = 8 + r.Intn(5)
+		o.memstore = uint64([]int{150, 300}[r.Intn(2)])
+		h.Memstore = o.memstore
+		o.maxSize = uint64(1500 + r.Intn(3000))
+		o.threshold = r.Intn(2)
+		o.ratioNum, o.ratioDen = 1, 1
+	}
 	h.OptsTok = o.modelTok()
 	// the database lives on tmpfs when there is one: a table flush costs several fsyncs on a disk file system, which
 	// would bound the number of rotations a quick run can afford (synchronisation is what is observed here, not durability)
@@ -142,6 +153,25 @@ func concChildMain(args []string) int {
 	stamp := func() int64 { return atomic.AddInt64(&clock, 1) }
 	perThread := total / h.Threads
 	recs := make([][]concOp, h.Threads)
+	// lineage (35%): before the goroutines start, thread 0 writes one large value per key and rotates, so that the oldest
+	// table exceeds the compaction size limit and later compactions merge runs that do NOT start at the oldest table
+	// while the clients overwrite and delete exactly those keys
+	if h.Lineage {
+		for i, k := range keys {
+			v := append([]byte(fmt.Sprintf("v0-pre%d-", i)), bytesRepeat('y', 1200+r.Intn(800))...)
+			op := concOp{T: 0, Kind: "p", Key: hex.EncodeToString(k), Val: hex.EncodeToString(v), Call: stamp()}
+			op.Out = dbRes(db.PutBytes(k, v))
+			op.Ret = stamp()
+			recs[0] = append(recs[0], op)
+		}
+		hk := concHook{Kind: "rot", Call: stamp()}
+		if err := db.VerifRotate(); err != nil {
+			hk.Err = err.Error()
+		}
+		db.VerifWaitFlushIdle()
+		hk.Ret = stamp()
+		h.Hooks = append(h.Hooks, hk)
+	}
 	var wg sync.WaitGroup
 	start := make(chan struct{})
 	for t := 0; t < h.Threads; t++ {
@@ -223,9 +253,13 @@ func concChildMain(args []string) int {
 				return
 			default:
 			}
-			time.Sleep(time.Duration(hr.Intn(1500)) * time.Microsecond)
+			time.Sleep(time.Duration(hr.Intn(400)) * time.Microsecond)
 			hk := concHook{Call: stamp()}
-			switch c := hr.Intn(100); {
+			c := hr.Intn(100)
+			if h.Lineage && c < 50 {
+				c = 99 // mostly compaction cycles
+			}
+			switch {
 			case c < 35:
 				hk.Kind = "rot"
 				if err := db.VerifRotate(); err != nil {
@@ -315,10 +349,17 @@ func linearizeKey(ops []concOp) []int {
 	order := make([]int, 0, n)
 	memo := map[string]bool{}
 	keyOf := func(first int, v string) string {
+		last := first
+		for i := n - 1; i > first; i-- {
+			if done[i] {
+				last = i
+				break
+			}
+		}
 		var sb strings.Builder
 		sb.WriteString(strconv.Itoa(first))
 		sb.WriteByte('|')
-		for i := first; i < n && i < first+64; i++ {
+		for i := first; i <= last; i++ {
 			if done[i] {
 				sb.WriteByte('1')
 			} else {
@@ -481,6 +522,39 @@ func tail(s string, n int) string {
 	return s
 }
 
+// the oracle can fail: three hand-made histories that are NOT linearizable must be rejected by porcupine and by the
+// witness search, and classified; one overlapping history that IS linearizable must be accepted
+func concSelfTest(res *Result) error {
+	mk := func(t int, kind, val, out string, call, ret int64) concOp {
+		return concOp{T: t, Kind: kind, Key: "61", Val: val, Out: out, Call: call, Ret: ret}
+	}
+	cases := []struct {
+		name string
+		ops  []concOp
+		ok   bool
+		sig  string
+	}{
+		{"stale-read-after-delete", []concOp{mk(0, "p", "01", "ok", 1, 2), mk(0, "d", "", "ok", 3, 4), mk(1, "g", "", "val:01", 5, 6)}, false, "non-linearizable:get-saw-deleted-value"},
+		{"stale-read-after-overwrite", []concOp{mk(0, "p", "01", "ok", 1, 2), mk(0, "p", "02", "ok", 3, 4), mk(1, "g", "", "val:01", 5, 6)}, false, "non-linearizable:get-saw-overwritten-value"},
+		{"missed-put", []concOp{mk(0, "p", "01", "ok", 1, 2), mk(1, "g", "", "notfound", 3, 4)}, false, "non-linearizable:get-missed-a-completed-put"},
+		{"overlapping-ok", []concOp{mk(0, "p", "01", "ok", 1, 6), mk(1, "g", "", "notfound", 2, 3), mk(2, "g", "", "val:01", 4, 5), mk(1, "d", "", "ok", 7, 9), mk(2, "g", "", "val:01", 8, 10)}, true, ""},
+	}
+	for _, c := range cases {
+		var pops []porcupine.Operation[concOp, string]
+		for _, o := range c.ops {
+			pops = append(pops, porcupine.Operation[concOp, string]{ClientId: o.T, Input: o, Call: o.Call, Output: o.Out, Return: o.Ret})
+		}
+		v := porcupine.CheckOperationsTimeout(regModel, pops, 10*time.Second)
+		w := linearizeKey(c.ops)
+		res.Evaluations++
+		if (v == porcupine.Ok) != c.ok || (w != nil) != c.ok || (!c.ok && classifyNonLin(c.ops) != c.sig) {
+			return fmt.Errorf("oracle self-test %q failed: porcupine=%s witness=%v class=%s", c.name, v, w, classifyNonLin(c.ops))
+		}
+		res.Stat("selftest:" + c.name)
+	}
+	return nil
+}
+
 func runConc(res *Result, drv *Driver, seed uint64, n int, tier string, only int) error {
 	res.Rule = "recorded concurrent histories of the real DB (child process): 2–8 client goroutines issuing Get/Put/Delete (string and byte flavours) with unique values on 3–8 keys, " +
 		"tiny memstore (size-triggered rotations), a hook goroutine forcing rotations / flush waits / compaction cycles; checked with porcupine (register per key, partitioned); " +
@@ -491,6 +565,9 @@ func runConc(res *Result, drv *Driver, seed uint64, n int, tier string, only int
 		return err
 	}
 	defer os.RemoveAll(tmp)
+	if err := concSelfTest(res); err != nil {
+		return err
+	}
 	for idx := 0; idx < n; idx++ {
 		if only >= 0 && idx != only {
 			continue
@@ -542,6 +619,9 @@ func concOne(res *Result, drv *Driver, seed uint64, idx int, tier string, tmp st
 	res.Stat(fmt.Sprintf("threads:%d", h.Threads))
 	res.Stat(fmt.Sprintf("procs:%d", h.Procs))
 	res.Stat(fmt.Sprintf("memstore:%d", h.Memstore))
+	if h.Lineage {
+		res.Stat("case:lineage-excluding-oldest")
+	}
 	rot, comp := 0, 0
 	for _, hk := range h.Hooks {
 		res.Stats["hook:"+hk.Kind]++
@@ -888,7 +968,12 @@ func runRace(res *Result, drv *Driver, seed uint64, n int, tier string, only int
 	defer os.RemoveAll(tmp)
 	bin := filepath.Join(tmp, "racestress")
 	env := os.Environ()
-	env = append(env, "GOFLAGS=-mod=mod", "GOPROXY=off")
+	if os.Getenv("GOFLAGS") == "" {
+		env = append(env, "GOFLAGS=-mod=mod")
+	}
+	if os.Getenv("GOPROXY") == "" {
+		env = append(env, "GOPROXY=off")
+	}
 	t0 := time.Now()
 	_, berr, rc, err := runChild(15*time.Minute, env, harnessDir(), "go", "build", "-race", "-tags", "verif", "-o", bin, "./cmd/racestress")
 	if err != nil || rc != 0 {
